@@ -33,6 +33,8 @@ inductive Prim where
   | stop | subFn | subDet | destroy
   | wait (f : Nat)   -- block (user-level, e.g. on another job's future) until event `f` has been signalled
   | set (f : Nat)    -- signal event `f`
+  | react            -- not an action of the body: when the job is *cancelled*, whoever observes it (the coroutine's handler,
+                     -- the closure's destructor, the future's watcher) calls back into the pool (`is_stopped()`)
   deriving DecidableEq, Repr, Inhabited
 
 inductive Act where
@@ -41,6 +43,7 @@ inductive Act where
   | destroy
   | wait (f : Nat)
   | set (f : Nat)
+  | nop
   deriving DecidableEq, Repr, Inhabited
 
 def Prim.toAct : Prim → Act
@@ -50,6 +53,7 @@ def Prim.toAct : Prim → Act
   | Prim.destroy => Act.destroy
   | Prim.wait f => Act.wait f
   | Prim.set f => Act.set f
+  | Prim.react => Act.nop
 
 structure Cfg where
   nw : Nat                       -- worker threads 0..nw-1
@@ -207,6 +211,14 @@ def notifyOne (s : State) (k : Nat) : State :=
   | none => s
   | some w => { s with waitq := s.waitq.erase w, woken := upd s.woken w true, awake := w :: s.awake }
 
+/-- the cancellation of job `j` is observed on thread `t`; a reacting job then calls `pool.is_stopped()`: one more
+critical section (nothing but its lock/unlock is visible) -/
+def cancelEv (s : State) (t j : Nat) : List Ev :=
+  if (s.body j).contains Prim.react && !s.destroyed then [Ev.cancel j t, Ev.unlock t] else [Ev.cancel j t]
+
+/-- a small step whose events contain a critical section ends at a scheduling point -/
+def outOf (evs : List Ev) (t : Nat) : Outcome := if evs.contains (Ev.unlock t) then Outcome.op else Outcome.cont
+
 /-- the closure of job `j` is destroyed on thread `t` without having been invoked -/
 def dropJob (c : Cfg) (s : State) (t j : Nat) : State × List Ev :=
   match dropKind c (s.kind j) with
@@ -216,14 +228,14 @@ def dropJob (c : Cfg) (s : State) (t j : Nat) : State × List Ev :=
                   defer := upd s.defer t (s.defer t ++ [j]), deferOn := upd s.deferOn j (some t) }, [])
       else
         ({ s with dropped := upd s.dropped j (s.dropped j + 1), loc := upd s.loc j Loc.done,
-                  cancelled := upd s.cancelled j (s.cancelled j + 1) }, [Ev.cancel j t])
+                  cancelled := upd s.cancelled j (s.cancelled j + 1) }, cancelEv s t j)
   | DropAct.guard =>
       ({ s with dropped := upd s.dropped j (s.dropped j + 1), loc := upd s.loc j Loc.done,
-                cancelled := upd s.cancelled j (s.cancelled j + 1) }, [Ev.cancel j t])
+                cancelled := upd s.cancelled j (s.cancelled j + 1) }, cancelEv s t j)
   | DropAct.breakPromise =>
       if s.armed j then
         ({ s with dropped := upd s.dropped j (s.dropped j + 1), loc := upd s.loc j Loc.done,
-                  fut := upd s.fut j Fut.broken, cancelled := upd s.cancelled j (s.cancelled j + 1) }, [Ev.cancel j t])
+                  fut := upd s.fut j Fut.broken, cancelled := upd s.cancelled j (s.cancelled j + 1) }, cancelEv s t j)
       else
         ({ s with dropped := upd s.dropped j (s.dropped j + 1), loc := upd s.loc j Loc.done,
                   fut := upd s.fut j Fut.broken }, [])
@@ -235,7 +247,7 @@ def dropJob (c : Cfg) (s : State) (t j : Nat) : State × List Ev :=
 def arm (s : State) (t j : Nat) : State × List Ev :=
   match s.fut j with
   | Fut.value => ({ s with armed := upd s.armed j true, valued := upd s.valued j (s.valued j + 1) }, [Ev.value j t])
-  | Fut.broken => ({ s with armed := upd s.armed j true, cancelled := upd s.cancelled j (s.cancelled j + 1) }, [Ev.cancel j t])
+  | Fut.broken => ({ s with armed := upd s.armed j true, cancelled := upd s.cancelled j (s.cancelled j + 1) }, cancelEv s t j)
   | _ => ({ s with armed := upd s.armed j true }, [])
 
 /-- the job table entry of a new submission and the submitter's program counter -/
@@ -296,16 +308,20 @@ def stepIdle (s : State) (t k : Nat) : State × List Ev × Outcome :=
       else ({ s with todo := upd s.todo t rest, pc := upd s.pc t (Pc.waitFlag f) }, [Ev.flagBlock t f], Outcome.blocked)
   | Act.set f :: rest =>
       ({ s with todo := upd s.todo t rest, flag := upd s.flag f true }, [Ev.flagSet f t], Outcome.cont)
+  | Act.nop :: rest => ({ s with todo := upd s.todo t rest }, [], Outcome.cont)
 
 def stepAfterEnq (c : Cfg) (s : State) (t j : Nat) (acc : Bool) : State × List Ev × Outcome :=
   if acc then
-    if hasFut (s.kind j) then ((arm (setPc s t Pc.idle) t j).1, (arm (setPc s t Pc.idle) t j).2, Outcome.cont)
+    if hasFut (s.kind j) then ((arm (setPc s t Pc.idle) t j).1, (arm (setPc s t Pc.idle) t j).2,
+                               outOf (arm (setPc s t Pc.idle) t j).2 t)
     else (setPc s t Pc.idle, [], Outcome.cont)
   else
     if hasFut (s.kind j) then
       ((arm (dropJob c (setPc s t Pc.idle) t j).1 t j).1,
-       (dropJob c (setPc s t Pc.idle) t j).2 ++ (arm (dropJob c (setPc s t Pc.idle) t j).1 t j).2, Outcome.cont)
-    else ((dropJob c (setPc s t Pc.idle) t j).1, (dropJob c (setPc s t Pc.idle) t j).2, Outcome.cont)
+       (dropJob c (setPc s t Pc.idle) t j).2 ++ (arm (dropJob c (setPc s t Pc.idle) t j).1 t j).2,
+       outOf ((dropJob c (setPc s t Pc.idle) t j).2 ++ (arm (dropJob c (setPc s t Pc.idle) t j).1 t j).2) t)
+    else ((dropJob c (setPc s t Pc.idle) t j).1, (dropJob c (setPc s t Pc.idle) t j).2,
+          outOf (dropJob c (setPc s t Pc.idle) t j).2 t)
 
 def stepStopJoin (s : State) (t : Nat) : State × List Ev × Outcome :=
   match s.tmp t with
@@ -326,7 +342,8 @@ specified (libstdc++ destroys the full middle nodes first), so the next closure 
 def stepStopDrop (c : Cfg) (s : State) (t k : Nat) : State × List Ev × Outcome :=
   match (s.dq t)[k % (s.dq t).length]? with
   | some j => ((dropJob c { s with dq := upd s.dq t ((s.dq t).erase j) } t j).1,
-               (dropJob c { s with dq := upd s.dq t ((s.dq t).erase j) } t j).2, Outcome.cont)
+               (dropJob c { s with dq := upd s.dq t ((s.dq t).erase j) } t j).2,
+               outOf (dropJob c { s with dq := upd s.dq t ((s.dq t).erase j) } t j).2 t)
   | none =>
     if s.dtor t then
       ({ s with destroyed := true, dtor := upd s.dtor t false, pc := upd s.pc t Pc.idle }, [Ev.destroyed t], Outcome.cont)
@@ -365,7 +382,7 @@ def stepWFlush (c : Cfg) (s : State) (t : Nat) : State × List Ev × Outcome :=
   match s.defer t with
   | j :: rest =>
       ({ s with defer := upd s.defer t rest, deferOn := upd s.deferOn j none,
-                cancelled := upd s.cancelled j (s.cancelled j + 1) }, [Ev.cancel j t], Outcome.cont)
+                cancelled := upd s.cancelled j (s.cancelled j + 1) }, cancelEv s t j, outOf (cancelEv s t j) t)
   | [] =>
     if c.dtorOutside then
       -- `h` goes out of scope before the `_current` check, lock not held
